@@ -169,13 +169,12 @@ theorem fit_supplied_u (d : Data) (us : List (List Rat)) (Dsup : Option ℕ) (u0
 theorem loop_ascent_step (d : Data) (us w0 : List (List Rat)) (ru rw : Mat)
     (hu : ∀ i a, 0 ≤ matOf us i a) (hw0 : ∀ a b, 0 ≤ matOf w0 a b) (hA : ∀ e < d.E, 0 < d.A e)
     (hr : ∀ a b, 0 ≤ rw a b)
-    (hlam : ∀ e < d.E, 0 < poisson d.N d.K (matOf us) (matOf w0) (d.edge e))
-    (hden : ∀ a < d.K, ∀ b < d.K, 0 < wDen d.N (matOf us) a b + rw a b) (m m' : ℕ) (h : m' = m ∨ m' = m + 1) :
+    (hlam : ∀ e < d.E, 0 < poisson d.N d.K (matOf us) (matOf w0) (d.edge e)) (m m' : ℕ) (h : m' = m ∨ m' = m + 1) :
     penLik d (matOf us) rw (matOf (wAfter d us w0 ru rw m))
       ≤ penLik d (matOf us) rw (matOf (wAfter d us w0 ru rw m')) := by
   rcases h with rfl | rfl
   · exact le_refl _
-  · exact loop_ascent d us w0 ru rw hu hw0 hA hr hlam hden m
+  · exact loop_ascent d us w0 ru rw hu hw0 hA hr hlam m
 
 /-- **the property's statement for `fit`**: memberships supplied ⇒ the exact (penalised) Poisson
 log-likelihood of the data under the returned affinity does not decrease from `n_iter = n` to `n + 1`,
@@ -185,7 +184,6 @@ theorem fit_ascent (d : Data) (us u0 w0 : List (List Rat)) (Dsup : Option ℕ) (
     (hu : ∀ i a, 0 ≤ matOf us i a) (hw0 : ∀ a b, 0 ≤ matOf w0 a b) (hA : ∀ e < d.E, 0 < d.A e)
     (hr : ∀ a b, 0 ≤ rw a b)
     (hlam : ∀ e < d.E, 0 < poisson d.N d.K (matOf us) (matOf w0) (d.edge e))
-    (hden : ∀ a < d.K, ∀ b < d.K, 0 < wDen d.N (matOf us) a b + rw a b)
     (hsym0 : ∀ a b, matOf w0 a b = matOf w0 b a) (hrsym : ∀ a b, rw a b = rw b a)
     (hsize : ∀ e < d.E, 2 ≤ (d.edge e).length ∧ (d.edge e).length ≤ d.N)
     (n D D' : ℕ) (p p' : Params)
@@ -207,7 +205,7 @@ theorem fit_ascent (d : Data) (us u0 w0 : List (List Rat)) (Dsup : Option ℕ) (
     rw [exactLik_congr d D' (matOf us) rw _ (fun a b => matOf (wAfter d us w0 ru rw m) a b / C (dims 2 D'))
       (fun a ha b hb => matOf_toRows_in _ _ _ a b ha hb)]
     exact exactLik_eq d D' (matOf us) rw _ (fun a _ b _ => loop_symm d us w0 ru rw hsym0 hrsym m a b) hD2 hDN hsize
-      (loop_inv d us w0 ru rw hu hw0 hA hr hlam hden m).2
+      (loop_inv d us w0 ru rw hu hw0 hA hr hlam m).2
   -- the loop was left after `m` passes (n_iter = n) and after `m` or `m + 1` passes (n_iter = n + 1)
   obtain ⟨m, _, hm⟩ := emRun_iter d true false ru rw stop n { u := us, w := w0 }
   have hw1 : (emRun d true false ru rw stop n { u := us, w := w0 }).p.w = wAfter d us w0 ru rw m := by
@@ -219,7 +217,7 @@ theorem fit_ascent (d : Data) (us u0 w0 : List (List Rat)) (Dsup : Option ℕ) (
     · exact ⟨m + 1, Or.inr rfl, by rw [h, hm]; rfl⟩
   obtain ⟨m', hmm, hw2⟩ := hw2
   rw [hp1, hp2, hw1, hw2, step m, step m']
-  have := loop_ascent_step d us w0 ru rw hu hw0 hA hr hlam hden m m' hmm
+  have := loop_ascent_step d us w0 ru rw hu hw0 hA hr hlam m m' hmm
   linarith
 
 end C15
